@@ -181,9 +181,20 @@ pub fn size_name(s: SymbolSize) -> String {
     format!("{:?}", s)
 }
 
+/// all 48 sizes in a CANONICAL order (data capacity, then rows^2 + cols^2, taken from the harness's own catalogue): the generated
+/// case sets must not depend on how the implementation orders symbols of equal capacity
 pub fn all_sizes() -> Vec<SymbolSize> {
-    SymbolList::all().iter().collect()
+    let mut v: Vec<SymbolSize> = SymbolList::all().iter().collect();
+    v.sort_by_key(|s| {
+        let name = size_name(*s);
+        match crate::catalogue::CATALOGUE.iter().find(|c| c.name == name) {
+            Some(c) => (c.data, c.rows * c.rows + c.cols * c.cols, 0usize),
+            None => (usize::MAX, 0, 0),
+        }
+    });
+    v
 }
+
 
 pub fn size_by_name(n: &str) -> Option<SymbolSize> {
     all_sizes().into_iter().find(|s| size_name(*s) == n)
